@@ -95,6 +95,9 @@ func GenMixed(r *rand.Rand, t *Target, mp MixedParams) *seccomp.Policy {
 		}
 		for i := 0; i < nn; i++ {
 			n := src[r.Intn(len(src))]
+			if r.Intn(10) < 7 { // mostly names outside the small pool, so that later conditional entries are not all shadowed
+				n = names[r.Intn(len(names))]
+			}
 			if !used[n] {
 				used[n] = true
 				grp.Names = append(grp.Names, n)
@@ -131,7 +134,14 @@ func GenMixed(r *rand.Rand, t *Target, mp MixedParams) *seccomp.Policy {
 }
 
 // GenConds generates a non-empty condition list (repeated arguments allowed).
+// Three of four lists are satisfiable by construction: a hidden witness vector
+// is drawn first and every condition is chosen so that the witness satisfies
+// it, which makes the deep branches of the compiled list reachable; the rest
+// are arbitrary (and often contradictory).
 func GenConds(r *rand.Rand, t *Target, pool []string, n int) seccomp.ArgumentConditions {
+	if r.Intn(4) != 0 {
+		return genCondsSat(r, t, pool, n)
+	}
 	var cs seccomp.ArgumentConditions
 	for k := 0; k < n; k++ {
 		cs = append(cs, seccomp.Condition{Argument: uint32(r.Intn(6)), Operation: AllOps[r.Intn(8)], Value: RandValue(r, t, pool)})
@@ -391,6 +401,244 @@ func FailExactly(r *rand.Rand, conds []seccomp.Condition, k int, base [6]uint64)
 			return args, false
 		}
 		args[a] = v
+	}
+	return args, true
+}
+
+func genCondsSat(r *rand.Rand, t *Target, pool []string, n int) seccomp.ArgumentConditions {
+	var wit [6]uint64
+	for i := range wit {
+		wit[i] = RandValue(r, t, pool)
+	}
+	var cs seccomp.ArgumentConditions
+	for k := 0; k < n; k++ {
+		a := uint32(r.Intn(6))
+		w := wit[a]
+		var c seccomp.Condition
+		for try := 0; try < 20; try++ {
+			op := AllOps[r.Intn(8)]
+			v := RandValue(r, t, pool)
+			switch op {
+			case "Equal":
+				v = w
+			case "NotEqual":
+				if v == w {
+					v = w ^ 1<<uint(r.Intn(64))
+				}
+			case "GreaterThan":
+				if w == 0 {
+					continue
+				}
+				v = w - 1
+				if w > 4 {
+					v -= uint64(r.Intn(3))
+				}
+			case "GreaterOrEqual":
+				v = w
+				if w > 4 && r.Intn(3) != 0 {
+					v -= uint64(r.Intn(3))
+				}
+			case "LessThan":
+				if w == ^uint64(0) {
+					continue
+				}
+				v = w + 1
+				if r.Intn(2) == 0 && w < ^uint64(0)-(1<<33) {
+					v = w + 1<<32
+				}
+			case "LessOrEqual":
+				v = w
+				if r.Intn(2) == 0 && w < ^uint64(0)-5 {
+					v = w + uint64(r.Intn(4))
+				}
+			case "BitsSet":
+				if w == 0 {
+					continue
+				}
+				v = (w & -w) | (v & 0x0000ffff0000ffff)
+				if r.Intn(2) == 0 {
+					v = 1 << uint(63-leadingZeros(w))
+				}
+			case "BitsNotSet":
+				v &^= w
+				if v == 0 && ^w != 0 {
+					v = ^w & -(^w)
+				}
+			}
+			c = seccomp.Condition{Argument: a, Operation: op, Value: v}
+			if Holds(c, w) {
+				break
+			}
+			c = seccomp.Condition{}
+		}
+		if c.Operation == "" {
+			c = seccomp.Condition{Argument: a, Operation: "Equal", Value: w}
+		}
+		cs = append(cs, c)
+	}
+	return cs
+}
+
+func leadingZeros(v uint64) int {
+	n := 0
+	for i := 63; i >= 0 && v&(1<<uint(i)) == 0; i-- {
+		n++
+	}
+	return n
+}
+
+// CondNeighbourhood returns argument vectors derived from sat (which
+// satisfies the whole list) that vary only the argument tested by condition
+// k over the hi/lo neighbourhood of its operand, keeping every other
+// condition of the list satisfied. One vector per distinct (outcome of
+// condition k, sign of the hi compare, sign of the lo compare) class, so
+// that every branch of the condition's lowering is taken with the rest of
+// the list in its matching state.
+func CondNeighbourhood(conds []seccomp.Condition, k int, sat [6]uint64) [][6]uint64 {
+	c := conds[k]
+	vh, vl := uint32(c.Value>>32), uint32(c.Value)
+	sh, sl := uint32(sat[c.Argument]>>32), uint32(sat[c.Argument])
+	his := []uint32{vh - 1, vh, vh + 1, sh, ^vh, 0, 0xffffffff}
+	los := []uint32{vl - 1, vl, vl + 1, sl, ^vl, 0, 0xffffffff}
+	sign := func(a, b uint32) int {
+		switch {
+		case a < b:
+			return 0
+		case a == b:
+			return 1
+		}
+		return 2
+	}
+	seen := map[[3]int]bool{}
+	var out [][6]uint64
+	for _, h := range his {
+		for _, l := range los {
+			v := uint64(h)<<32 | uint64(l)
+			okOthers := true
+			for i, o := range conds {
+				if i != k && o.Argument == c.Argument && !Holds(o, v) {
+					okOthers = false
+					break
+				}
+			}
+			if !okOthers {
+				continue
+			}
+			outcome := 0
+			if Holds(c, v) {
+				outcome = 1
+			}
+			key := [3]int{outcome, sign(h, vh), sign(l, vl)}
+			if c.Operation == "BitsSet" || c.Operation == "BitsNotSet" {
+				key = [3]int{outcome, b2i(h&vh != 0), b2i(l&vl != 0)}
+			}
+			if seen[key] {
+				continue
+			}
+			seen[key] = true
+			a := sat
+			a[c.Argument] = v
+			out = append(out, a)
+		}
+	}
+	return out
+}
+
+func b2i(b bool) int {
+	if b {
+		return 1
+	}
+	return 0
+}
+
+// solveMulti finds a value satisfying all of must and none of mustNot.
+func solveMulti(r *rand.Rand, must, mustNot []seccomp.Condition) (uint64, bool) {
+	var cands []uint64
+	for _, c := range must {
+		cands = append(cands, condCandidates(c)...)
+	}
+	for _, c := range mustNot {
+		cands = append(cands, condCandidates(c)...)
+	}
+	// pairwise combinations of halves help with mixed constraints
+	n := len(cands)
+	for i := 0; i < n && i < 24; i++ {
+		for j := 0; j < n && j < 24; j++ {
+			cands = append(cands, cands[i]&0xffffffff00000000|cands[j]&0xffffffff)
+		}
+	}
+	r.Shuffle(len(cands), func(i, j int) { cands[i], cands[j] = cands[j], cands[i] })
+	for i := 0; i < 64; i++ {
+		cands = append(cands, r.Uint64())
+	}
+	for _, v := range cands {
+		ok := true
+		for _, c := range must {
+			if !Holds(c, v) {
+				ok = false
+				break
+			}
+		}
+		if ok {
+			for _, c := range mustNot {
+				if Holds(c, v) {
+					ok = false
+					break
+				}
+			}
+		}
+		if ok {
+			return v, true
+		}
+	}
+	return 0, false
+}
+
+// SatisfyAvoiding finds arguments that satisfy conds while every list in
+// avoid has at least one violated condition (ok=false if it cannot).
+func SatisfyAvoiding(r *rand.Rand, conds []seccomp.Condition, avoid [][]seccomp.Condition, base [6]uint64) ([6]uint64, bool) {
+	args, ok := Satisfy(r, conds, base)
+	if !ok {
+		return args, false
+	}
+	must := map[uint32][]seccomp.Condition{}
+	for _, c := range conds {
+		must[c.Argument] = append(must[c.Argument], c)
+	}
+	mustNot := map[uint32][]seccomp.Condition{}
+	listHolds := func(l []seccomp.Condition) bool {
+		for _, c := range l {
+			if !Holds(c, args[c.Argument]) {
+				return false
+			}
+		}
+		return true
+	}
+	for _, l := range avoid {
+		if !listHolds(l) {
+			continue
+		}
+		order := r.Perm(len(l))
+		fixed := false
+		for _, ci := range order {
+			c := l[ci]
+			v, ok := solveMulti(r, must[c.Argument], append(append([]seccomp.Condition{}, mustNot[c.Argument]...), c))
+			if ok {
+				args[c.Argument] = v
+				mustNot[c.Argument] = append(mustNot[c.Argument], c)
+				fixed = true
+				break
+			}
+		}
+		if !fixed {
+			return args, false
+		}
+	}
+	// an earlier list may have become satisfied again through a later change
+	for _, l := range avoid {
+		if listHolds(l) {
+			return args, false
+		}
 	}
 	return args, true
 }
